@@ -15,7 +15,7 @@ RULE = ("audited set = {optimize_until(L,S)} for every program value L and stage
 ASSUMPTIONS = ["index min/max of each computed partition as ground truth"]
 CONFIG = {
     "quick": {"budget_s": 55, "programs": 500, "case_timeout_s": 90},
-    "thorough": {"budget_s": 600, "programs": 6000, "case_timeout_s": 180},
+    "thorough": {"budget_s": 600, "programs": 2500, "case_timeout_s": 180},
 }
 TIER = {"t": "quick"}
 
